@@ -134,7 +134,7 @@ type Opts struct {
 // Entry converts an Entry tree. problems collects anomalies met on the way
 // (panics of accessors are not caught here).
 func Entry(e *yang.Entry, o Opts, problems *[]string) *yref.XNode {
-	x := &yref.XNode{Name: e.Name, Kind: kindOf(e), Config: tri(e.Config), Mandatory: tri(e.Mandatory), Default: append([]string(nil), e.Default...), Key: e.Key}
+	x := &yref.XNode{Name: e.Name, Kind: kindOf(e), Config: tri(e.Config), Mandatory: tri(e.Mandatory), Default: append([]string(nil), e.Default...), Key: e.Key, Units: e.Units}
 	if e.Type != nil {
 		x.Type = Type(e.Type)
 	}
@@ -225,7 +225,8 @@ func Diff(want, got *yref.XNode, o DiffOpts, path string) *D {
 	if want.Kind != got.Kind {
 		return &D{path, "kind", fmt.Sprintf("expected %s, observed %s", want.Kind, got.Kind)}
 	}
-	if !eqBool(want.Config, got.Config) {
+	// an implicit case has no text of its own; goyang copies its member's config onto it (same read-only result)
+	if !want.Implicit && !eqBool(want.Config, got.Config) {
 		return &D{path, "config", fmt.Sprintf("expected %s, observed %s", bs(want.Config), bs(got.Config))}
 	}
 	if !eqBool(want.Mandatory, got.Mandatory) {
@@ -233,6 +234,9 @@ func Diff(want, got *yref.XNode, o DiffOpts, path string) *D {
 	}
 	if fmt.Sprint(want.Default) != fmt.Sprint(got.Default) {
 		return &D{path, "default", fmt.Sprintf("expected %q, observed %q", want.Default, got.Default)}
+	}
+	if want.Units != got.Units {
+		return &D{path, "units", fmt.Sprintf("expected %q, observed %q", want.Units, got.Units)}
 	}
 	if want.Key != got.Key {
 		return &D{path, "key", fmt.Sprintf("expected %q, observed %q", want.Key, got.Key)}
@@ -251,7 +255,7 @@ func Diff(want, got *yref.XNode, o DiffOpts, path string) *D {
 	if o.NS && want.NS != got.NS && !(o.SkipImplicitCaseNS && want.Implicit) {
 		return &D{path, "namespace", fmt.Sprintf("expected module %s, observed %s", want.NS, got.NS)}
 	}
-	if o.ReadOnly && want.ReadOnly != got.ReadOnly {
+	if o.ReadOnly && want.ReadOnly != got.ReadOnly && !want.Implicit {
 		return &D{path, "read-only", fmt.Sprintf("expected %v, observed %v", want.ReadOnly, got.ReadOnly)}
 	}
 	if o.Defaults && want.Type != nil && fmt.Sprint(want.DefaultVal) != fmt.Sprint(got.DefaultVal) {
